@@ -226,6 +226,23 @@ def run(rep):
                       'space, %%, ?, #, non-ASCII) is judged non-canonical -- redirect mode redirects it to itself, strict mode answers 404'
                       % (short(mixed[0][0], 70), _chain(mixed[0][1][0]), _chain(mixed[0][1][1])), app, nps)
         ok = isinstance(rst, ast.Return) and rst.value is rc
+        if not ok and isinstance(rst, ast.Assign) and rst.value is rc and len(rst.targets) == 1 and isinstance(rst.targets[0], ast.Name):
+            # the response is held in a local together with an outcome tag and returned further down (``outcome, result =
+            # REDIRECT, redirect(..)`` ... ``if outcome == REDIRECT: return result``): it is still "returned immediately" when
+            # every execution that passes the binding -- branches the tag rules out are not taken -- leaves dispatch through a
+            # ``return <that local>`` that can only read this binding, before the loop goes on or the route is executed
+            carrier = rst.targets[0].id
+            src = cfg.nodes_of(rst)
+            good = []
+            for r_ in returns_of(f):
+                if isinstance(r_.value, ast.Name) and r_.value.id == carrier:
+                    va = dv.value_at(carrier, r_)
+                    if va is not None and len(va) == 1 and va[0][0] is rst:
+                        good.append(r_)
+            after = [m for n_ in src for m in cfg.succ[n_] if (n_, m) not in cfg.exc_edges]
+            stray = cfg.reach(after, avoid=dv.infeasible_branches(src) | set(cfg.nodes_of_all(good)), normal_only=True) & \
+                (set(dv.head) | {cfg.exit} | set(cfg.nodes_of(dv.exec_st)))
+            ok = bool(good) and not stray
         rep.check('R07.a', fkey(f, 'redirect returned'), ok, 'the redirect response is returned immediately' if ok else
                   'the redirect response is not returned directly', app, rst)
         np_branch = argn(npc, 'is_branch', 1)
@@ -249,12 +266,21 @@ def run(rep):
         for s in addx:
             a = s.value.args[0]
             srcs = [x.value for x in stmts_of(f.node) if isinstance(x, ast.Assign) and norm(x.targets[0]) == norm(a)]
+            if isinstance(a, ast.Name) and len(srcs) > 1:
+                # a local with several bindings (an outcome's payload): the ones that can be read here, named temporaries followed
+                va = dv.value_at(a.id, s)
+                if va is not None:
+                    srcs = [dv.resolve(v_) for st_, v_ in va]
             if any(isinstance(v, ast.Call) and norm(v.func).endswith('not_found_type') for v in srcs) or \
                     (isinstance(a, ast.Call) and norm(a.func).endswith('not_found_type')):
                 addx_nf.append(s)
         exec_nodes = cfg.nodes_of(dv.exec_st)
-        ok = bool(strict_t) and bool(addx_nf) and cfg.must_pass(cfg.nodes_of_all(addx_nf), strict_t, dv.head + [cfg.exit], normal_only=True) and \
-            not (set(exec_nodes) & cfg.reach(strict_t, avoid=dv.head))
+        # (branches that an outcome tag set on the way rules out are not taken)
+        dead = dv.infeasible_branches(strict_t) if strict_t else set()
+        thru = set(cfg.nodes_of_all(addx_nf))
+        ok = bool(strict_t) and bool(addx_nf) and \
+            not ((set(dv.head) | {cfg.exit}) & cfg.reach(strict_t, avoid=thru | dead, normal_only=True)) and \
+            not (set(exec_nodes) & cfg.reach(strict_t, avoid=set(dv.head) | dead))
         rep.check('R07.a', fkey(f, 'strict mode'), ok,
                   'strict mode: a non-canonical path records a not-found error and the route is not executed' if ok else
                   'strict mode does not reliably skip the route with a recorded not-found error', app, addx_nf[0] if addx_nf else dv.loop)
